@@ -33,7 +33,10 @@ RULE = ("(1) exhaustive: all products U_ab U_cd with a,b,c,d in {p,q,r} under "
         "through sym_tensors / antisym_tensors), remainder tensors, inverse tensors, polynomial "
         "factors and denominators, deltas, symbols, sqrt prefactors, provided "
         "and Einstein targets, 1-3 terms, occ/virt/general/spin sorts); "
-        "(3) malformed: 3-index tensor with the unitary name, indices of "
+        "(2b) deterministic + random products of two or three resolvable pairs "
+        "whose deltas share a contracted index that also sits on a remainder "
+        "tensor (provided and Einstein targets; exercises the recursion of "
+        "the follow-up delta evaluation); (3) malformed: 3-index tensor with the unitary name, indices of "
         "different spaces/spins, negative powers of the unitary tensor.  A "
         "case is non-trivial if the implementation performs at least one "
         "replacement or refuses a pair that shares an index; distinct = "
@@ -131,6 +134,72 @@ def exhaustive_braket_specs(full):
                             "terms": [{"coef": "1", "facs": [
                                 ["U", carrier, [a, b], 1],
                                 ["U", carrier, [c, d], 1]]}]})
+    return out
+
+
+def shared_delta_specs(rng, n_random):
+    """two or three resolvable pairs whose deltas share one contracted index
+    that also sits on a remainder tensor: U_as U_ar U_bs U_bt X_s -> delta_sr
+    delta_st X_s; with evaluate_deltas=True the follow-up evaluation has to
+    carry the targets (r, t) through its recursion.  Deterministic part: both
+    pair positions, shared index canonically before / between / after the
+    targets, X_s / X_ss / X_s Y_s, provided and Einstein targets; plus random
+    variants (carrier, prefactor, extra factors)."""
+    def pair(pos, a, x, y, carrier="N"):
+        if pos == 0:
+            return [["U", carrier, [a, x], 1], ["U", carrier, [a, y], 1]]
+        return [["U", carrier, [x, a], 1], ["U", carrier, [y, a], 1]]
+
+    def rem(kind, sh):
+        if kind == 0:
+            return [["T", "X", [sh], 1]]
+        if kind == 1:
+            return [["T", "X", [sh, sh], 1]]
+        return [["T", "X", [sh], 1], ["T", "Y", [sh], 1]]
+
+    out = []
+    # (shared, targets...) ; contracted pair indices u, v, w
+    orders = [("p", ["r", "t", "s"]), ("r", ["p", "t", "s"]),
+              ("t", ["p", "r", "s"])]
+    for shn, tgn in orders:
+        sh = [shn, ""]
+        for npairs in (2, 3):
+            tg = [[x, ""] for x in tgn[:npairs]]
+            inner = [[x, ""] for x in "uvw"[:npairs]]
+            for pos in itertools.product((0, 1), repeat=npairs):
+                if npairs == 3 and len(set(pos)) == 2 and pos[0] != pos[1]:
+                    continue      # keep the family small
+                for rk in (0, 1, 2):
+                    facs = []
+                    for k in range(npairs):
+                        facs += pair(pos[k], inner[k], sh, tg[k])
+                    facs += rem(rk, sh)
+                    for einstein in (False, True):
+                        out.append({"name": "U", "sort": ["general", ""],
+                                    "targets": None if einstein else tg,
+                                    "kind": "shared-delta",
+                                    "terms": [{"coef": "1", "facs": facs}]})
+    letters = "pqrstuvw"
+    for _ in range(n_random):
+        npairs = rng.choice([2, 2, 3])
+        names = rng.sample(letters, 2 * npairs + 1)
+        sh = [names[0], ""]
+        tg = [[x, ""] for x in names[1:1 + npairs]]
+        inner = [[x, ""] for x in names[1 + npairs:]]
+        carrier = rng.choice(["N", "N", "A0", "S0", "M"])
+        facs = []
+        for k in range(npairs):
+            facs += pair(rng.randint(0, 1), inner[k], sh, tg[k], carrier)
+        facs += rem(rng.randint(0, 2), sh)
+        if rng.random() < 0.3:
+            facs.append(["T", "W", [rng.choice(tg)], 1])
+        if rng.random() < 0.2:
+            facs.append(["Y", "x"])
+        out.append({"name": rng.choice(["U", "A"]), "sort": ["general", ""],
+                    "targets": None if rng.random() < 0.5 else tg,
+                    "kind": "shared-delta-rnd",
+                    "terms": [{"coef": rng.choice(["1", "2", "-1/2"]),
+                               "facs": facs}]})
     return out
 
 
@@ -991,6 +1060,7 @@ def run(ctx):
     run_specs(ctx, CORPUS, "corpus", stats)
     run_specs(ctx, exhaustive_specs(full=False), "exh", stats)
     run_specs(ctx, exhaustive_braket_specs(full=not quick), "exhbk", stats)
+    run_specs(ctx, shared_delta_specs(rng, 30 if quick else 200), "shd", stats)
     if not quick:
         run_specs(ctx, exhaustive_specs(full=True), "exh3", stats)
     dropped = {}
